@@ -73,13 +73,14 @@ def meta(tier):
                 '##PLACEHOLDER## survives in any file, each configured word is matched in full by the pattern of its own category '
                 '(case-insensitively for mnemonics, macros and registers), no near-miss identifier (word+x, x+word, word+_, word with '
                 '"." replaced by a letter, a word of another category) is matched by a category it does not belong to, and every '
-                'directive / preprocessor / function keyword is matched by its pattern; non-trivial = vocabulary with >=2 words in one '
+                'directive / preprocessor / function keyword is matched by its pattern; for every third vocabulary the previous vocabulary is generated into the '
+                'same directory first (an upgrade of the definition) and the packages found afterwards must be those of the later one; non-trivial = vocabulary with >=2 words in one '
                 'category or a word containing "." or "_"; distinct by construction',
         'bounds': {'mnemonics': MNEMONICS, 'macros': MACROS, 'registers': REGISTERS, 'predefined': PREDEFINED},
         'assumptions': ['Python re and the Oniguruma-family engines of the editors agree on (?i), \\b, look-behind, look-ahead and alternation',
                         'preprocessor keywords: only a match starting right after the # is required (the template pattern has no trailing '
                         'boundary, so #ifdef may be matched as if+def depending on alternation order; not judged)'],
-        'floors': {'evaluations': 500, 'nontrivial': 100, 'clauses': ['vscode', 'sublime']},
+        'floors': {'evaluations': 500, 'nontrivial': 100, 'clauses': ['vscode', 'sublime', 'vscode-regenerated', 'sublime-regenerated']},
         'nshards': 64, 'xcheck': 0,
     }
 
@@ -310,7 +311,7 @@ def generate_inproc(isa, target, root):
     with open(cfg, 'w') as f:
         json.dump(isa, f)
     out = os.path.join(root, 'out')
-    os.makedirs(out)
+    os.makedirs(out, exist_ok=True)
     world.reset_globals()
     cls = VSCodeConfigGenerator if target == 'vscode' else SublimeConfigGenerator
     cls(cfg, 0, out, None, None, None).generate()
@@ -322,7 +323,7 @@ def generate_cli(isa, target, root):
     with open(cfg, 'w') as f:
         json.dump(isa, f)
     out = os.path.join(root, 'out')
-    os.makedirs(out)
+    os.makedirs(out, exist_ok=True)
     env = {k: v for k, v in os.environ.items() if not k.startswith('BESPOKEASM_')}
     env['PYTHONPATH'] = world.SRC
     p = subprocess.run([world.PYTHON, '-m', 'bespokeasm', 'generate-extension', target, '-c', cfg, '-d', out],
@@ -332,10 +333,14 @@ def generate_cli(isa, target, root):
     return out
 
 
-def examine(isa, target, vocab, gen):
+def examine(isa, target, vocab, gen, before=None):
+    """before: an earlier revision of the definition (same language name) generated into the same directory first; the packages
+    found there afterwards must be those of `isa`."""
     root = tempfile.mkdtemp(prefix='bespokeverif_c20_', dir='/dev/shm' if os.path.isdir('/dev/shm') else None)
     try:
         try:
+            if before is not None:
+                gen(before, target, root)
             out = gen(isa, target, root)
         except SystemExit as e:
             return [f'generator exited: {e.code}']
@@ -383,6 +388,16 @@ def shard(acc, tier, idx, n):
                             finding = None
                             acc.violation([{'isa': isa, 'target': target}], spec, f'{target} {vocab}: {probs[0]}', [{'problems': probs[:5]}],
                                           finding=finding)
+                        elif ctr % 3 == 0:
+                            # an upgrade: the previous vocabulary was generated into the same directory before this one
+                            prev = vocabs[vocabs.index(vocab) - 1]
+                            probs = examine(isa, target, vocab, generate_inproc, before=make_isa(*prev))
+                            acc.count_eval(1, 'OK' if not probs else 'PROBLEM')
+                            if probs:
+                                spec = {'target': target, 'vocab': [list(v) for v in vocab], 'before': make_isa(*prev)}
+                                acc.violation([{'isa': isa, 'target': target}], spec,
+                                              f'{target} {vocab} generated over {prev} in the same directory: {probs[0]}', [{'problems': probs[:5]}])
+                            acc.judge(clause=target + '-regenerated', nontrivial_distinct=True)
                         nt = max(len(mn), len(mac), len(regs), len(pre)) >= 2 or any('.' in w or '_' in w for v in vocab for w in v)
                         acc.judge(clause=target, nontrivial_distinct=nt)
                     if ctr % 101 == 0:
@@ -398,5 +413,5 @@ def confirm(viol):
     spec = viol['spec']
     c = viol['cases'][0]
     vocab = tuple(tuple(v) for v in spec['vocab'])
-    probs = examine(c['isa'], spec['target'], vocab, generate_cli)
+    probs = examine(c['isa'], spec['target'], vocab, generate_cli, before=spec.get('before'))
     return (probs[0] if probs else None), [{'problems': probs[:5]}]
